@@ -1,9 +1,200 @@
+import NxProofs.NexStreams
+import NxProofs.NexCommon
 import NxProofs.NexErrors
-/-! # C15 — NEX value encodings are lossless (statements; proofs in NxProofs/Nex*.lean) -/
+import NxProofs.NexDateTime
+/-!
+# C15 — NEX value encodings are lossless
+
+Models: `NxModel/Nex/Streams.lean` (stream primitives), `Common.lean` (Result, Structure levels, DataHolder),
+`Errors.lean` (code ↔ name table), `DateTime.lean`, `StationURL.lean`. Statements only; proofs in
+`NxProofs/Nex{Streams,Common,Errors,DateTime}.lean`.
+
+Every round trip has the exact-consumption form: if the writer succeeds with bytes `b` (it fails exactly
+where `struct.pack` raises — see the `…_ok_iff` theorems), the reader applied to `b ++ rest` returns the
+value and leaves exactly `rest`, for every `rest`.
+
+NOT proved here (differential only, see manifest): StationURL `parse (repr u) = u` and typed `getitem`
+(`stationurl_roundtrip` of DESIGN §5 — model and tie exist, the proof does not);
+`civilOfDays (daysOfCivil y m d) = (y, m, d)` (the other direction of the calendar bijection).
+-/
 namespace Nx.C15
 open Nx Nx.Nex
 
-/-- a table that passes the (kernel-evaluated) checks is a bijection between its codes and names -/
+/-! ## strings: absent ↔ `u16 0`, `""` ↔ `01 00 00`, any Unicode scalar sequence of ≤ 65534 UTF-8 bytes -/
+
+theorem string_roundtrip {s : Option String} {b : Bytes} (h : wString s = .ok b) (rest : Bytes) :
+    rString (b ++ rest) = .ok (s, rest) := rString_wString h rest
+
+/-- writing succeeds exactly for strings whose UTF-8 form has at most 65534 bytes -/
+theorem string_writable_iff (s : String) : (∃ b, wString (some s) = .ok b) ↔ (utf8Enc s.toList).length ≤ 65534 :=
+  wString_ok_iff s
+
+example : wString none = .ok [0, 0] := by decide
+example : wString (some "") = .ok [1, 0, 0] := by decide
+example : rString [1, 0, 0, 7] = .ok (some "", [7]) := by decide
+example : rString [0, 0, 7] = .ok (none, [7]) := by decide
+
+/-! ## buffers -/
+
+theorem buffer_roundtrip {d b : Bytes} (h : wBuffer d = .ok b) (rest : Bytes) : rBuffer (b ++ rest) = .ok (d, rest) :=
+  rBuffer_wBuffer h rest
+
+theorem qbuffer_roundtrip {d b : Bytes} (h : wQBuffer d = .ok b) (rest : Bytes) : rQBuffer (b ++ rest) = .ok (d, rest) :=
+  rQBuffer_wQBuffer h rest
+
+theorem buffer_writable_iff (d : Bytes) : (∃ b, wBuffer d = .ok b) ↔ d.length < 4294967296 := wBuffer_ok_iff d
+
+/-! ## integers of each width, booleans, doubles (as 64-bit patterns: NaN payloads and infinities included) -/
+
+theorem u8_roundtrip {n : Nat} {b : Bytes} (h : wU8 n = .ok b) (rest : Bytes) : rdU8 (b ++ rest) = .ok (n, rest) := rdU8_wU8 h rest
+theorem u16_roundtrip {n : Nat} {b : Bytes} (h : wU16 n = .ok b) (rest : Bytes) : rdU16 (b ++ rest) = .ok (n, rest) := rdU16_wU16 h rest
+theorem u32_roundtrip {n : Nat} {b : Bytes} (h : wU32 n = .ok b) (rest : Bytes) : rdU32 (b ++ rest) = .ok (n, rest) := rdU32_wU32 h rest
+theorem u64_roundtrip {n : Nat} {b : Bytes} (h : wU64 n = .ok b) (rest : Bytes) : rdU64 (b ++ rest) = .ok (n, rest) := rdU64_wU64 h rest
+theorem s8_roundtrip {v : Int} {b : Bytes} (h : wS8 v = .ok b) (rest : Bytes) : rS8 (b ++ rest) = .ok (v, rest) := rS8_wS8 h rest
+theorem s16_roundtrip {v : Int} {b : Bytes} (h : wS16 v = .ok b) (rest : Bytes) : rS16 (b ++ rest) = .ok (v, rest) := rS16_wS16 h rest
+theorem s32_roundtrip {v : Int} {b : Bytes} (h : wS32 v = .ok b) (rest : Bytes) : rS32 (b ++ rest) = .ok (v, rest) := rS32_wS32 h rest
+theorem s64_roundtrip {v : Int} {b : Bytes} (h : wS64 v = .ok b) (rest : Bytes) : rS64 (b ++ rest) = .ok (v, rest) := rS64_wS64 h rest
+theorem bool_roundtrip {v : Bool} {b : Bytes} (h : wBool v = .ok b) (rest : Bytes) : rBool (b ++ rest) = .ok (v, rest) := rBool_wBool h rest
+theorem double_roundtrip {bits : Nat} {b : Bytes} (h : wDouble bits = .ok b) (rest : Bytes) : rDouble (b ++ rest) = .ok (bits, rest) :=
+  rDouble_wDouble h rest
+
+theorem u64_writable_iff (n : Nat) : (∃ b, wU64 n = .ok b) ↔ n < 18446744073709551616 := wU64_ok_iff n
+theorem s64_writable_iff (v : Int) : (∃ b, wS64 v = .ok b) ↔ (-9223372036854775808 ≤ v ∧ v < 9223372036854775808) := wS64_ok_iff v
+
+example : ∃ b, wDouble 0x7FF8000000000001 = .ok b := ⟨_, rfl⟩   -- a NaN with payload
+example : ∃ b, wS64 (-9223372036854775808) = .ok b := (s64_writable_iff _).mpr (by omega)
+
+/-! ## lists and maps (elements / keys / values of any type that round-trips; nesting by instantiation) -/
+
+theorem list_roundtrip {α : Type} (f : α → Except Err Bytes) (rdr : Bytes → Except Err (α × Bytes)) (l : List α)
+    (helem : ∀ x ∈ l, ∀ b rest, f x = .ok b → rdr (b ++ rest) = .ok (x, rest))
+    {b : Bytes} (h : wList f l = .ok b) (rest : Bytes) : rList rdr (b ++ rest) = .ok (l, rest) :=
+  rList_wList f rdr l helem h rest
+
+/-- a map with pairwise distinct keys (a Python dict) is read back equal, in the same order -/
+theorem map_roundtrip {κ ν : Type} [BEq κ] [LawfulBEq κ]
+    (kf : κ → Except Err Bytes) (vf : ν → Except Err Bytes)
+    (rk : Bytes → Except Err (κ × Bytes)) (rv : Bytes → Except Err (ν × Bytes)) (m : List (κ × ν))
+    (hk : ∀ e ∈ m, ∀ b rest, kf e.1 = .ok b → rk (b ++ rest) = .ok (e.1, rest))
+    (hv : ∀ e ∈ m, ∀ b rest, vf e.2 = .ok b → rv (b ++ rest) = .ok (e.2, rest))
+    (hdistinct : (m.map (·.1)).Nodup) {b : Bytes} (h : wMap kf vf m = .ok b) (rest : Bytes) :
+    rMap rk rv (b ++ rest) = .ok (m, rest) :=
+  rMap_wMap kf vf rk rv m hk hv hdistinct h rest
+
+/-- instance: a list of lists of strings (nesting composes) -/
+theorem nested_list_roundtrip (l : List (List (Option String))) {b : Bytes} (h : wList (wList wString) l = .ok b) (rest : Bytes) :
+    rList (rList rString) (b ++ rest) = .ok (l, rest) :=
+  rList_wList _ _ l (fun x _ _ r hx => rList_wList wString rString x (fun _ _ _ r' hs => rString_wString hs r') hx r) h rest
+
+example : wMap wU8 wU16 [(1, 2), (3, 4)] = .ok [2, 0, 0, 0, 1, 2, 0, 3, 4, 0] := by decide
+example : rMap (κ := Nat) rdU8 rdU16 [2, 0, 0, 0, 1, 2, 0, 1, 4, 0] = .ok ([(1, 4)], []) := by decide  -- a repeated key collapses
+
+/-! ## variants of every tag -/
+
+theorem variant_roundtrip {v : Variant} {b : Bytes} (h : wVariant v = .ok b) (rest : Bytes) :
+    rVariant (b ++ rest) = .ok (v, rest) := rVariant_wVariant h rest
+
+/-- tag per kind: none 0, negative int 1, double 2, bool 3, string 4, datetime 5, non-negative int 6 -/
+theorem variant_tag {v : Variant} {b : Bytes} (h : wVariant v = .ok b) :
+    b.head? = some (match v with
+      | .none => 0 | .int x => if x < 0 then 1 else 6 | .double _ => 2 | .bool _ => 3 | .str _ => 4 | .datetime _ => 5) :=
+  wVariant_tag h
+
+example : wVariant (.int (-2)) = .ok [1, 0xFE, 0xFF, 0xFF, 0xFF, 0xFF, 0xFF, 0xFF, 0xFF] := by decide
+example : wVariant (.int 2) = .ok [6, 2, 0, 0, 0, 0, 0, 0, 0] := by decide
+example : rVariant [4, 0, 0] = .ok (.none, []) := by decide   -- an absent string inside a variant reads as None (not a written value)
+
+/-! ## result, pid (both widths), datetime on the wire -/
+
+theorem result_roundtrip {code : Nat} {b : Bytes} (h : wResult code = .ok b) (rest : Bytes) : rResult (b ++ rest) = .ok (code, rest) :=
+  rResult_wResult h rest
+
+theorem pid_roundtrip (pidSize : Nat) {v : Nat} {b : Bytes} (h : wPid pidSize v = .ok b) (rest : Bytes) :
+    rPid pidSize (b ++ rest) = .ok (v, rest) := rPid_wPid pidSize h rest
+
+theorem pid_writable_iff (pidSize v : Nat) :
+    (∃ b, wPid pidSize v = .ok b) ↔ v < (if pidSize = 8 then 18446744073709551616 else 4294967296) := wPid_ok_iff pidSize v
+
+theorem datetime_roundtrip {v : Nat} {b : Bytes} (h : wDateTime v = .ok b) (rest : Bytes) : rDateTime (b ++ rest) = .ok (v, rest) :=
+  rDateTime_wDateTime h rest
+
+example : wPid 4 4294967295 = .ok [255, 255, 255, 255] := by decide
+example : wPid 8 4294967296 = .ok [0, 0, 0, 0, 1, 0, 0, 0] := by decide
+
+/-! ## polymorphic data holders and Structure levels -/
+
+theorem anydata_roundtrip {name : Option String} {payload b : Bytes} (h : wAnyData name payload = .ok b) (rest : Bytes) :
+    rAnyData (b ++ rest) = .ok ((name, payload), rest) := rAnyData_wAnyData h rest
+
+/-- one class of a Structure hierarchy, with or without the version+length header, given the class's own
+`load` inverts its `save` (`body`); with a header the saved version is handed to `load` -/
+theorem structure_level_roundtrip {α : Type} (header : Bool) (version : Nat) (body : Bytes)
+    (load : Nat → Bytes → Except Err (α × Bytes)) (x : α)
+    (hload : ∀ rest, load (if header then version else 0) (body ++ rest) = .ok (x, rest))
+    {b : Bytes} (h : wStructLevel header version body = .ok b) (rest : Bytes) :
+    rStructLevel header load (b ++ rest) = .ok (x, rest) :=
+  rStructLevel_wStructLevel header version body load x hload h rest
+
+example : wAnyData (some "NullData") [0, 0, 0, 0, 0, 0, 0, 0, 0, 0] =
+    .ok ([9, 0, 78, 117, 108, 108, 68, 97, 116, 97, 0, 14, 0, 0, 0, 10, 0, 0, 0] ++ [0, 0, 0, 0, 0, 0, 0, 0, 0, 0]) := by decide
+
+/-! ## DateTime: calendar accessors and Unix time -/
+
+open DateTime in
+/-- the accessors return the fields a value was made from (fields within their bit widths, any year) -/
+theorem datetime_fields_make (f : Fields) (h : f.InRange) : fields (make f) = f := fields_make f h
+
+open DateTime in
+/-- for every value — all 2^64 wire values and every larger Python int — re-making it from its fields is the identity -/
+theorem datetime_make_fields (v : Nat) : make (fields v) = v := make_fields v
+
+open DateTime in
+/-- days → civil date → days is the identity for every day number, and the civil date is a valid calendar date -/
+theorem civil_roundtrip (z : Nat) :
+    daysOfCivil (civilOfDays z).1 (civilOfDays z).2.1 (civilOfDays z).2.2 = z ∧
+    1 ≤ (civilOfDays z).2.1 ∧ (civilOfDays z).2.1 ≤ 12 ∧ 1 ≤ (civilOfDays z).2.2 ∧
+    (civilOfDays z).2.2 ≤ daysInMonth (civilOfDays z).1 (civilOfDays z).2.1 :=
+  ⟨daysOfCivil_civilOfDays z, civilOfDays_valid z⟩
+
+/- Full statement wanted by the property (NOT provable for the code as it is — see the counterexample):
+   ∀ off t, the local date of `t` lies in 1970..9999 → ∃ v, fromTimestamp off t = ok v ∧ timestamp off v = ok t.
+   Proved: the same with the extra hypothesis `h3` (the civil time one offset later is still ≤ 9999-12-31T23:59:59). -/
+open DateTime in
+theorem datetime_unix_partial (off t : Int)
+    (h1 : yearOk (t + off + (epochZ * 86400 : Nat)) = true)
+    (h2 : yearOk (t + off + (epochZ * 86400 : Nat) - 86400) = true)
+    (h3 : yearOk (t + off + (epochZ * 86400 : Nat) + off) = true) :
+    ∃ v, fromTimestamp off t = .ok v ∧ timestamp off v = .ok t :=
+  timestamp_fromTimestamp off t h1 h2 h3
+
+open DateTime in
+/-- 9999-12-31T23:59:59 at UTC+09:00: `fromtimestamp` succeeds, `timestamp()` of the result raises ValueError -/
+theorem datetime_unix_counterexample :
+    ∃ v, fromTimestamp 32400 253402268399 = .ok v ∧ timestamp 32400 v = .error .value :=
+  timestamp_fromTimestamp_counterexample
+
+open DateTime in
+example : (⟨9999, 12, 31, 23, 59, 59⟩ : Fields).InRange := by decide
+open DateTime in
+example : yearOk (1596279690 + 20700 + (epochZ * 86400 : Nat)) = true ∧ yearOk (1596279690 + 20700 + (epochZ * 86400 : Nat) - 86400) = true ∧
+    yearOk (1596279690 + 20700 + (epochZ * 86400 : Nat) + 20700) = true := by decide
+open DateTime in
+example : fromTimestamp 0 1596279690 = .ok (make ⟨2020, 8, 1, 11, 1, 30⟩) := by decide
+
+/-! ## Result: the error bit, and the code ↔ name table -/
+
+theorem result_error_bit (c : Nat) :
+    Result.isError (Result.mkError c) = true ∧ Result.isSuccess (Result.mkSuccess c) = true ∧
+    Result.isError c = !Result.isSuccess c ∧ (Result.isError c = true ↔ c / 2147483648 % 2 = 1) :=
+  ⟨isError_mkError c, isSuccess_mkSuccess c, isError_eq_not_isSuccess c, isError_iff_bit31 c⟩
+
+theorem result_error_code_recoverable (c : Nat) (h : c < errorMask) : Result.mkSuccess (Result.mkError c) = c :=
+  mkSuccess_mkError c h
+
+/-- any table whose (kernel-evaluated) checks succeed is a bijection between its codes and names:
+`nameOf`/`codeOf` are inverse on exactly the table's entries, `Result.error(name).name() = name`,
+`Result.error(name).code() = code | 2^31`, and no name collides with "success"/"unknown error".
+The check itself is a *generated obligation* re-run on every `./check C15` on the table extracted from errors.py. -/
 theorem error_table_bijective_of_checks (fuel : Nat) (codes keys : List Nat)
     (hlen : Nat.beq codes.length keys.length = true)
     (hcodes : (sortedN codes || nodupN codes) = true)
@@ -13,5 +204,8 @@ theorem error_table_bijective_of_checks (fuel : Nat) (codes keys : List Nat)
     (hres : (notInN (encodeName successName) keys && notInN (encodeName unknownName) keys) = true) :
     TableBijective (genTable fuel codes keys) :=
   tableBijective_of_gen fuel codes keys hlen hcodes hkeys hvalid hbelow hres
+
+example : TableBijective (genTable 8 [0x10001, 0x10002] [encodeName [67, 111], encodeName [68]]) :=
+  error_table_bijective_of_checks 8 _ _ (by decide) (by decide) (by decide) (by decide) (by decide) (by decide)
 
 end Nx.C15
